@@ -36,6 +36,29 @@ func (e *Enc) Encode() (err error) {
 		e.ufArith = e.fc.Arith == "uf"
 	}
 	e.analyzeLoops()
+	if e.fc != nil {
+		e.splits = e.fc.Splits
+	}
+	if e.phase != 0 {
+		if e.fc == nil || e.fc.Cut == nil {
+			return fmt.Errorf("internal: phase without cut")
+		}
+		for _, b := range fn.Blocks {
+			for _, in := range b.Instrs {
+				if e.cutInstr == nil && in.Pos().IsValid() && e.p.srcLine(in.Pos()) == e.fc.Cut.Line {
+					if _, isDbg := in.(*ssa.DebugRef); !isDbg {
+						e.cutInstr = in
+					}
+				}
+			}
+		}
+		if e.cutInstr == nil {
+			return fmt.Errorf("STALE-CONTRACT: %s: cut line %q not found", funcName(fn), e.fc.Cut.Line)
+		}
+		if e.phase == 2 {
+			e.splits = e.fc.Cut.Splits
+		}
+	}
 	// cross-check loop contracts
 	if e.fc != nil {
 		for ord := range e.fc.Loops {
@@ -91,6 +114,27 @@ func (e *Enc) Encode() (err error) {
 		for _, c := range e.fc.Req {
 			e.assumeG(tTrue, ctx0.evalBool(c.E))
 		}
+		if e.phase != 2 {
+			e.applySplitCase(ctx0)
+		}
+		// spec values over the entry state: definitions, or opaque constants after a cut
+		for _, sp := range e.fc.Specs {
+			c := e.ctx(e.init, e.init, nil)
+			if e.phase == 2 {
+				nl := len(e.lines)
+				saved := e.mulSeen
+				e.mulSeen = map[string]bool{}
+				v := c.eval(sp.E)
+				e.lines = e.lines[:nl]
+				e.mulSeen = saved
+				v.T = e.havoc("spec_"+sp.Name, v.T.Sort)
+				e.specVals[sp.Name] = v
+				continue
+			}
+			v := c.eval(sp.E)
+			v.T = e.def("spec_"+sp.Name, v.T)
+			e.specVals[sp.Name] = v
+		}
 	}
 
 	order := e.rpo()
@@ -103,6 +147,9 @@ func (e *Enc) Encode() (err error) {
 func (e *Enc) ctx(st, old *State, extra map[string]CVal) *Ctx {
 	vars := map[string]CVal{}
 	for k, v := range e.params {
+		vars[k] = v
+	}
+	for k, v := range e.specVals {
 		vars[k] = v
 	}
 	for k, v := range extra {
@@ -186,8 +233,221 @@ func (e *Enc) mergeStates(states []*State, guards []Term) *State {
 	return res
 }
 
+// skipBlock (phase 2, before the cut) binds every value of the block to an
+// unconstrained constant; pointer descriptors keep their structure.
+func (e *Enc) skipInstrs(instrs []ssa.Instruction, st *State) {
+	e.quiet = true
+	defer func() { e.quiet = false }()
+	for _, in := range instrs {
+		switch x := in.(type) {
+		case *ssa.DebugRef, *ssa.Store, *ssa.If, *ssa.Jump, *ssa.Return, *ssa.Panic, *ssa.RunDefers, *ssa.MapUpdate, *ssa.Send, *ssa.Go, *ssa.Defer:
+			continue
+		case *ssa.Alloc, *ssa.FieldAddr, *ssa.IndexAddr:
+			e.instr(in, st)
+		case ssa.Value:
+			if tup, ok := x.Type().(*types.Tuple); ok {
+				var vs []Val
+				for i := 0; i < tup.Len(); i++ {
+					t := e.havoc("cut_"+x.Name(), e.reg.sortOf(tup.At(i).Type()))
+					e.emit("(assert %s)", e.reg.rangeFact(tup.At(i).Type(), t).S)
+					vs = append(vs, Val{T: t})
+				}
+				e.vals[x] = Val{Tuple: vs}
+				continue
+			}
+			if ex, ok := in.(*ssa.Extract); ok {
+				e.vals[ex] = e.val(ex.Tuple).Tuple[ex.Index]
+				continue
+			}
+			t := e.havoc("cut_"+x.Name(), e.reg.sortOf(x.Type()))
+			e.emit("(assert %s)", e.reg.rangeFact(x.Type(), t).S) // a Go value of its type
+			e.vals[x] = Val{T: t}
+		}
+	}
+}
+
+// applySplitCase fixes the split expressions of the current case (partial
+// evaluation under these constants) or, in the remainder case, asserts that some
+// split expression is outside its range.
+func (e *Enc) applySplitCase(c *Ctx) {
+	if e.caseVals == nil && !e.caseRest {
+		return
+	}
+	var outside []Term
+	for i, sp := range e.splits {
+		exprs := append([]Expr{sp.E}, sp.Alts...)
+		for _, x := range exprs {
+			t := c.evalInt(x)
+			if e.caseRest {
+				outside = append(outside, Term{app("<", t.S, fmt.Sprint(sp.Lo)), sBool}, Term{app(">", t.S, fmt.Sprint(sp.Hi)), sBool})
+				continue
+			}
+			v := tInt(e.caseVals[i])
+			if !isNumeral(t.S) {
+				e.emit("(assert (= %s %s))", t.S, v.S)
+				e.known[e.expand(t.S)] = v.S
+			}
+		}
+	}
+	if e.caseRest {
+		e.emit("(assert %s)", tOr(outside...).S)
+	}
+}
+
+func (e *Enc) cutCtx(st *State) *Ctx {
+	c := e.ctx(st, e.init, nil)
+	c.local = func(name string) (CVal, bool) {
+		vs := e.debugVals[name]
+		cb := e.cutInstr.Block()
+		var best ssa.Value
+		for _, v := range vs {
+			if a, ok := v.(*ssa.Alloc); ok {
+				if r, ok := e.vals[a]; ok && r.Loc != nil {
+					if _, live := st.locals[a]; live {
+						return CVal{T: e.read(r.Loc, st), GT: a.Type().(*types.Pointer).Elem()}, true
+					}
+				}
+				continue
+			}
+			ins, isIns := v.(ssa.Instruction)
+			if isIns && !(ins.Block() == cb || ins.Block().Dominates(cb)) {
+				continue
+			}
+			if isIns && ins.Block() == cb {
+				// must be defined before the cut instruction
+				before := false
+				for _, x := range cb.Instrs {
+					if x == e.cutInstr {
+						break
+					}
+					if x == ins {
+						before = true
+					}
+				}
+				if !before {
+					continue
+				}
+			}
+			if r, ok := e.vals[v]; ok && r.Loc == nil {
+				// prefer the definition closest to the cut in the dominator tree
+				if best == nil {
+					best = v
+				} else if bi, ok := best.(ssa.Instruction); ok && isIns && domDepth(ins.Block()) > domDepth(bi.Block()) {
+					best = v
+				}
+			}
+		}
+		if best != nil {
+			return CVal{T: e.vals[best].T, GT: best.Type()}, true
+		}
+		return CVal{}, false
+	}
+	return c
+}
+
+// atCut handles the cut instruction: phase 1 asserts the cut clauses and stops;
+// phase 2 havocs what was written before, assumes them and goes on.
+func (e *Enc) cutAssert(st *State) {
+	c := e.cutCtx(st)
+	e.terminal = true
+	defer func() { e.terminal = false }()
+	for k, a := range e.fc.Cut.Asserts {
+		cj := e.p.conjuncts(a.E, deepSplit)
+		for j, cx := range cj {
+			label := fmt.Sprintf("#%d %s", k+1, a.Text)
+			if len(cj) > 1 {
+				label = fmt.Sprintf("#%d.%d %s", k+1, j+1, exprString(cx))
+			}
+			e.oblige("cut", label, a.Tags, c.evalBool(cx), token.NoPos)
+		}
+	}
+}
+
+func (e *Enc) preCutInstrs() []ssa.Instruction {
+	cb := e.cutInstr.Block()
+	var out []ssa.Instruction
+	for _, b := range e.fn.Blocks {
+		if b == cb {
+			for _, in := range b.Instrs {
+				if in == e.cutInstr {
+					break
+				}
+				out = append(out, in)
+			}
+			continue
+		}
+		if !cb.Dominates(b) {
+			out = append(out, b.Instrs...)
+		}
+	}
+	return out
+}
+
 func (e *Enc) processBlock(b *ssa.BasicBlock) {
 	fn := e.fn
+	if e.phase == 2 {
+		cb := e.cutInstr.Block()
+		if b != cb && !cb.Dominates(b) {
+			scratch := e.init.clone()
+			for a, v := range e.scratchLocals {
+				scratch.locals[a] = v
+			}
+			e.curBlock = b
+			e.skipInstrs(b.Instrs, scratch)
+			for a, v := range scratch.locals {
+				e.scratchLocals[a] = v
+			}
+			return
+		}
+		if b == cb {
+			scratch := e.init.clone()
+			for a, v := range e.scratchLocals {
+				scratch.locals[a] = v
+			}
+			e.curBlock = b
+			var pre, post []ssa.Instruction
+			seen := false
+			for _, in := range b.Instrs {
+				if in == e.cutInstr {
+					seen = true
+				}
+				if seen {
+					post = append(post, in)
+				} else {
+					pre = append(pre, in)
+				}
+			}
+			e.skipInstrs(pre, scratch)
+			// state at the cut: the entry state with everything written so far havocked
+			st := e.init.clone()
+			for a := range scratch.locals {
+				st.locals[a] = e.reg.zero(a.Type().(*types.Pointer).Elem()) // live; value havocked below
+			}
+			region := map[ssa.Instruction]bool{}
+			preAll := e.preCutInstrs()
+			for _, in := range preAll {
+				region[in] = true
+			}
+			ws := e.writeSetOf(preAll, func(in ssa.Instruction) bool { return region[in] })
+			for a := range scratch.locals {
+				ws.locals[a] = true
+			}
+			e.applyHavoc(ws, st)
+			e.blockG[b] = tTrue
+			e.curGuard = tTrue
+			e.curState = st
+			c := e.cutCtx(st)
+			e.applySplitCase(c)
+			for _, a := range e.fc.Cut.Asserts {
+				e.assume(c.evalBool(a.E))
+			}
+			for _, in := range post {
+				e.instr(in, st)
+			}
+			e.outState[b] = st
+			return
+		}
+	}
 	var st *State
 	var guard Term
 	li := e.loops[b]
@@ -213,8 +473,23 @@ func (e *Enc) processBlock(b *ssa.BasicBlock) {
 		if len(states) == 0 {
 			return // unreachable
 		}
-		st = e.mergeStates(states, entryGuards)
 		guard = e.def(fmt.Sprintf("g_b%d", b.Index), tOr(entryGuards...))
+		if guard.S == "false" {
+			return // unreachable in this split case
+		}
+		// drop predecessors whose edge is dead in this case
+		{
+			var ps []*ssa.BasicBlock
+			var gs []Term
+			var ss []*State
+			for i := range entryPreds {
+				if entryGuards[i].S != "false" {
+					ps, gs, ss = append(ps, entryPreds[i]), append(gs, entryGuards[i]), append(ss, states[i])
+				}
+			}
+			entryPreds, entryGuards, states = ps, gs, ss
+		}
+		st = e.mergeStates(states, entryGuards)
 	}
 	e.blockG[b] = guard
 	e.curGuard = guard
@@ -303,6 +578,10 @@ func (e *Enc) processBlock(b *ssa.BasicBlock) {
 		if _, ok := in.(*ssa.Phi); ok {
 			continue
 		}
+		if e.phase == 1 && in == e.cutInstr {
+			e.cutAssert(st)
+			return // nothing beyond the cut in phase 1
+		}
 		e.instr(in, st)
 	}
 	e.outState[b] = st
@@ -366,10 +645,25 @@ type writeSet struct {
 }
 
 func (e *Enc) havocLoop(li *loopInfo, st *State) {
+	var instrs []ssa.Instruction
+	var blocks []*ssa.BasicBlock
+	for b := range li.blocks {
+		blocks = append(blocks, b)
+	}
+	sort.Slice(blocks, func(i, j int) bool { return blocks[i].Index < blocks[j].Index })
+	for _, b := range blocks {
+		instrs = append(instrs, b.Instrs...)
+	}
+	ws := e.writeSetOf(instrs, func(ins ssa.Instruction) bool { return li.blocks[ins.Block()] })
+	e.applyHavoc(ws, st)
+}
+
+// writeSetOf computes the heap locations and local cells written by a region of instructions.
+func (e *Enc) writeSetOf(instrs []ssa.Instruction, inRegion func(ssa.Instruction) bool) *writeSet {
 	ws := &writeSet{coarse: map[string]string{}, precise: map[string][]Term{}, sorts: map[string]string{}, locals: map[*ssa.Alloc]bool{}}
 	inLoop := func(v ssa.Value) bool {
 		if ins, ok := v.(ssa.Instruction); ok {
-			return li.blocks[ins.Block()]
+			return inRegion(ins)
 		}
 		return false
 	}
@@ -431,18 +725,13 @@ func (e *Enc) havocLoop(li *loopInfo, st *State) {
 			panic(unsupported{fmt.Sprintf("store through %T in loop", addr)})
 		}
 	}
-	var blocks []*ssa.BasicBlock
-	for b := range li.blocks {
-		blocks = append(blocks, b)
-	}
-	sort.Slice(blocks, func(i, j int) bool { return blocks[i].Index < blocks[j].Index })
 	type pendingCall struct {
 		call *ssa.Call
 		fc   *FuncC
 	}
 	var calls []pendingCall
-	for _, b := range blocks {
-		for _, in := range b.Instrs {
+	{
+		for _, in := range instrs {
 			switch x := in.(type) {
 			case *ssa.Store:
 				addrWrite(x.Addr)
@@ -497,10 +786,13 @@ func (e *Enc) havocLoop(li *loopInfo, st *State) {
 	for _, pc := range calls {
 		callee := pc.call.Call.StaticCallee()
 		for _, t := range pc.fc.Mod {
-			e.targetWrites(ws, li, pc.call, callee, t)
+			e.targetWrites(ws, pc.call, callee, t)
 		}
 	}
-	// apply
+	return ws
+}
+
+func (e *Enc) applyHavoc(ws *writeSet, st *State) {
 	if ws.alloc {
 		na := e.havoc("alloc", sInt)
 		e.emit("(assert (>= %s %s))", na.S, st.alloc.S)
@@ -508,6 +800,9 @@ func (e *Enc) havocLoop(li *loopInfo, st *State) {
 	}
 	for _, name := range sortedKeys(ws.coarse) {
 		st.heap[name] = e.havoc(name, ws.coarse[name])
+		if ax := e.heapTyping(name, st.heap[name]); ax != "" {
+			e.emit("%s", ax)
+		}
 	}
 	for _, name := range sortedKeys(ws.precise) {
 		if _, c := ws.coarse[name]; c {
@@ -516,13 +811,17 @@ func (e *Enc) havocLoop(li *loopInfo, st *State) {
 		h := st.heapGet(e, name, ws.sorts[name])
 		for _, ref := range ws.precise[name] {
 			elemSort := tSelect(h, ref).Sort
-			h = tStore(h, ref, e.havoc(name+".cell", elemSort))
+			cell := e.havoc(name+".cell", elemSort)
+			e.cellTyping(name, cell)
+			h = tStore(h, ref, cell)
 		}
 		st.heap[name] = e.def(name, h)
 	}
 	for a := range ws.locals {
 		if _, ok := st.locals[a]; ok {
-			st.locals[a] = e.havoc("loc_"+a.Comment, e.reg.sortOf(a.Type().(*types.Pointer).Elem()))
+			et := a.Type().(*types.Pointer).Elem()
+			st.locals[a] = e.havoc("loc_"+a.Comment, e.reg.sortOf(et))
+			e.emit("(assert %s)", e.reg.rangeFact(et, st.locals[a]).S) // a Go value of its type
 		}
 	}
 }
@@ -544,7 +843,7 @@ func (e *Enc) coarseAllOf(ws *writeSet, t types.Type) {
 }
 
 // targetWrites adds the heap locations named by a callee's modifies target to a loop write set.
-func (e *Enc) targetWrites(ws *writeSet, li *loopInfo, call *ssa.Call, callee *ssa.Function, t Target) {
+func (e *Enc) targetWrites(ws *writeSet, call *ssa.Call, callee *ssa.Function, t Target) {
 	// type the target by evaluating it symbolically with dummy values is heavy;
 	// we only need the heap names, so walk the types.
 	typeOf := func(x Expr) types.Type { return e.staticType(callee, x) }
@@ -717,7 +1016,12 @@ func (e *Enc) evalTarget(c *Ctx, t Target) []modRef {
 		if !ok {
 			cfail("modifies %s: base is not a slice", t.Text)
 		}
-		out = append(out, modRef{t: t, heapName: elemHeapName(sl.Elem()), heapSort: arrSort(arrSort(e.reg.sortOf(sl.Elem()))), elems: true, ref: e.def("modarr", Term{app("Slice_arr", b.T.S), sInt})})
+		m := modRef{t: t, heapName: elemHeapName(sl.Elem()), heapSort: arrSort(arrSort(e.reg.sortOf(sl.Elem()))), elems: true, ref: e.def("modarr", Term{app("Slice_arr", b.T.S), sInt})}
+		if t.Index != nil {
+			ix := e.def("modidx", Term{app("+", app("Slice_off", b.T.S), c.evalInt(t.Index).S), sInt})
+			m.idx = &ix
+		}
+		out = append(out, m)
 		return out
 	}
 	d, isPtr := derefType(b.GT)
@@ -748,7 +1052,7 @@ func (e *Enc) typeOfExpr(c *Ctx, x Expr) types.Type {
 }
 
 // allowedWrite returns the condition under which a write to (heapName, ref) is inside the frame.
-func (e *Enc) allowedWrite(heapName string, ref Term) Term {
+func (e *Enc) allowedWrite(heapName string, ref Term, idx *Term) Term {
 	conds := []Term{Term{app(">=", ref.S, "alloc@0"), sBool}}
 	for _, m := range e.modRefs {
 		if m.heapName != heapName {
@@ -756,6 +1060,10 @@ func (e *Enc) allowedWrite(heapName string, ref Term) Term {
 		}
 		if m.wild {
 			conds = append(conds, m.wildCond(ref))
+		} else if m.idx != nil {
+			if idx != nil {
+				conds = append(conds, tAnd(tEq(ref, m.ref), tEq(*idx, *m.idx)))
+			}
 		} else {
 			conds = append(conds, tEq(ref, m.ref))
 		}
@@ -771,7 +1079,11 @@ func (e *Enc) frameCheck(l *Loc, pos token.Pos, what string) {
 	case 0:
 		return
 	case 1, 2:
-		cond := e.allowedWrite(l.heapName, l.ref)
+		var ix *Term
+		if l.kind == 2 {
+			ix = &l.idx
+		}
+		cond := e.allowedWrite(l.heapName, l.ref, ix)
 		if cond.S == "true" {
 			return
 		}
@@ -788,3 +1100,34 @@ func (e *Enc) frameCheck(l *Loc, pos token.Pos, what string) {
 func (fc *FuncC) frameTags() []string { return fc.PanicTags }
 
 var _ = strings.TrimSpace
+
+func domDepth(b *ssa.BasicBlock) int {
+	d := 0
+	for x := b.Idom(); x != nil; x = x.Idom() {
+		d++
+	}
+	return d
+}
+
+// cellTyping asserts that a havocked heap cell (one object's field, or one
+// backing array, or one element) holds values of its Go type.
+func (e *Enc) cellTyping(name string, cell Term) {
+	heapTypeMu.Lock()
+	t := heapTypes[name]
+	heapTypeMu.Unlock()
+	if t == nil {
+		return
+	}
+	if strings.HasPrefix(cell.Sort, "(Array Int ") && strings.HasPrefix(name, "E.") && cell.Sort == arrSort(e.reg.sortOf(t)) {
+		el := Term{app("select", cell.S, "i!"), e.reg.sortOf(t)}
+		f := e.reg.rangeFact(t, el)
+		if f.S != "true" {
+			e.emit("(assert (forall ((i! Int)) (! %s :pattern (%s))))", f.S, el.S)
+		}
+		return
+	}
+	f := e.reg.rangeFact(t, cell)
+	if f.S != "true" {
+		e.emit("(assert %s)", f.S)
+	}
+}
